@@ -542,6 +542,15 @@ fn main() {
                 rep.violations.extend(st.violations);
                 rep.add_part(st.part);
             }
+            {
+                // two loss episodes on one connection, each within its segment's budget
+                let mut d = vx_core::DfsConfig::new("lossy-handshake-then-lossy-first-segment", 0);
+                d.wall = wall;
+                let thorough = tier == Tier::Thorough;
+                let st = vx_core::explore_dfs(&d, move |ch| fixedlat::lossy_phases_scenario(ch, thorough));
+                rep.violations.extend(st.violations);
+                rep.add_part(st.part);
+            }
             all_feats.sort();
             all_feats.dedup();
             let need = ["SynSent", "SynReceived", "Established", "FinWait1", "FinWait2", "CloseWait", "LastAck", "Closing"];
@@ -672,6 +681,22 @@ fn replay(path: &str) {
         for l in ch.describe() {
             println!("  choice {l}");
         }
+        match e.violation {
+            Some(v) => {
+                for a in &v.actions {
+                    println!("  {a}");
+                }
+                println!("VIOLATION clause={} : {}", v.clause, v.detail);
+                std::process::exit(1);
+            }
+            None => println!("no violation on this execution"),
+        }
+        return;
+    }
+    if prop == "C13" && scenario.starts_with("c13-lossy-phases") {
+        println!("replaying {prop}: {scenario}");
+        let mut ch = vx_core::Chooser::from_choices(&choices);
+        let e = fixedlat::lossy_phases_scenario(&mut ch, false);
         match e.violation {
             Some(v) => {
                 for a in &v.actions {
